@@ -118,6 +118,7 @@ pub fn run_case(id: &str, r: &mut Rng, out: &mut String) {
         let readers = vec![DescribedReader::from_file_path(p2)];
         if mode < 6 {
             let (wh, _sb) = WriteHandle::string_buff_write_handle();
+            let (eh, eb) = WriteHandle::string_buff_write_handle();
             let mut writer = TextWriter::new(wh);
             let r = async_std::task::block_on(run_acb_app_to_writer(
                 &mut writer,
@@ -127,9 +128,10 @@ pub fn run_case(id: &str, r: &mut Rng, out: &mut String) {
                 full,
                 costs,
                 app::rate_loader(),
-                WriteHandle::empty_write_handle(),
+                eh,
             ));
-            if r.is_ok() { "ok".to_string() } else { "err".to_string() }
+            // a failure of the run as a whole: what the user is told (stderr)
+            if r.is_ok() { "ok".to_string() } else { format!("err {}", oneline(eb.borrow().as_str())) }
         } else {
             let options = Options { split_annual_summary_gains: mode >= 8, csv_parse_options: parse_opts, ..Options::default() };
             let r = async_std::task::block_on(run_acb_app_summary_to_model(
@@ -140,7 +142,14 @@ pub fn run_case(id: &str, r: &mut Rng, out: &mut String) {
                 app::rate_loader(),
                 WriteHandle::empty_write_handle(),
             ));
-            if r.is_ok() { "ok".to_string() } else { "err".to_string() }
+            match r {
+                Ok(_) => "ok".to_string(),
+                // per-security errors are attributed by construction; a general error must say where
+                Err(e) => match e.general_error {
+                    Some(g) => format!("err {}", oneline(&g)),
+                    None => "secerr".to_string(),
+                },
+            }
         }
     });
     let _ = std::fs::remove_dir_all(&dir);
